@@ -29,8 +29,9 @@ TRUSTED = ['model Pool.v hand-written from mapproxy/util/async_.py; tie = differ
 ASSUMPTIONS = ['queue.Queue is FIFO and loses nothing', 'one result is put per task taken']
 EXPLANATION = ('resequencing invariant proved for all permutations and hand-over points; put/task_done handshake and forced-shutdown drain '
                'proved for all interleavings; consumers of result objects proved order-independent; implementation driven through chosen '
-               'completion orders, gated puts, a forced empty()/get() race, the real _create_bulk_meta_tile / LayerRenderer and request '
-               'sequences through the real WSGI app')
+               'completion orders, gated puts, a forced empty()/get() race, the real _create_bulk_meta_tile / LayerRenderer / '
+               'TileCreator._query_sources (recording merger and real LayerMerger with per-source clip coverages) / S3 and Azure '
+               'load_tiles+store_tiles (fake bucket), and request sequences through the real WSGI app')
 
 
 class Boom(Exception):
